@@ -151,8 +151,8 @@ FpAccept(e) ==
       [] e.op \in NegOps -> In1(e) /\ RetF(e, e.c, FNeg(A(e), p))
       [] e.op \in DblOps -> In1(e) /\ RetF(e, e.c, FDbl(A(e), p))
       [] e.op \in HlvOps -> In1(e) /\ RetF(e, e.c, FHlv(A(e), p))
-      [] e.op = "fp_trs" -> In1(e) /\ RetF(e, e.c, FAbs(e, e.c)) /\ FMul(FAbs(e, e.c), <<3>>, p) = A(e)      \* 3 c = a
                                    /\ FDbl(FAbs(e, e.c), p) = A(e)
+      [] e.op = "fp_trs" -> In1(e) /\ RetF(e, e.c, FAbs(e, e.c)) /\ FMul(FAbs(e, e.c), <<3>>, p) = A(e)      \* 3 c = a
       [] e.op \in SqrOps -> In1(e) /\ RetF(e, e.c, FSqr(A(e), p))
       [] e.op \in InvOps -> In1(e) /\ InvSpec(e)
       [] e.op = "fp_inv_sim" -> InvSimSpec(e)
@@ -202,8 +202,8 @@ FpKnownKey(e) ==
          \* value into c before the last reads of a; a root is announced but c^3 # a
          \* fp_trs (c = a / 3): the correction constant (p - 1) div 3 is -1/3 only for p = 1 (mod 3), and the digit-wise
          \* division by three assumes 64-bit digits: the call completes with a reduced value c for which 3c # a
-      [] e.op = "fp_trs" /\ e.err = 0 /\ e.code = 0 /\ FCanon(e, e.c)
-                /\ FMul(FAbs(e, e.c), <<3>>, P(e)) # A(e)
+      [] e.op = "fp_trs" /\ e.err = 0 /\ e.code = 0 /\ FCanon(e, e.a)
+                /\ ~(FCanon(e, e.c) /\ FMul(FAbs(e, e.c), <<3>>, P(e)) = A(e))
             -> "C02-trs-wrong-quotient"
       [] e.op = "fp_crt" /\ e.al = 1 /\ BMod(P(e), <<9>>) = <<1>>
                 /\ A(e) # <<>> /\ FIsCube(A(e), P(e))
